@@ -504,6 +504,17 @@ def gen_scene(rng, quick):
     scene = {"section": "scene", "elements": elements, "coords": coords, "charges": charges, "weights": weights,
              "grid_style": gstyle, "grid": grid, "grid_spec": gspec, "style": style,
              "max_dist": rng.choice([0.5, 1.0, 1.7, 2.0, 2.5, 3.3]), "eps": rng.choice([0.0, 0.25, 0.5, 1.0])}
+    if n_atoms >= 2 and rng.chance(1, 3):
+        # a second ensemble of the same composition whose atoms come in another order (an isomer as far as the formula goes),
+        # evaluated in the same process right before / after this one
+        if len(set(elements)) == 1:
+            elements[rng.below(n_atoms)] = rng.choice([e for e in ELEMENTS if e != elements[0]])
+        perm = list(range(n_atoms))
+        for _ in range(20):
+            rng.shuffle(perm)
+            if [elements[k] for k in perm] != elements:
+                break
+        scene["sibling"] = {"order": rng.choice(["after", "before"]), "perm": perm}
     if rng.chance(1, 2):
         # the same objects are queried, edited in place and queried again
         edit = rng.choice(["assign", "translate", "translate", "scale"])
@@ -630,6 +641,17 @@ def check_scenes(ctx, n_cases, corpus, big=0):
     scenes = [c for c in corpus if c.get("section") == "scene"] + [gen_scene(ctx.rng, ctx.quick()) for _ in range(n_cases)] + \
         [gen_big_scene(ctx.rng, ctx.quick(), i) for i in range(big)]
     reqs = []   # (line, kind, impl, tag)
+    expanded = []
+    for s in scenes:
+        sib = s.get("sibling")
+        if sib and sorted(sib["perm"]) == list(range(len(s["elements"]))):
+            twin = {k: v for k, v in s.items() if k not in ("sibling", "then")}
+            twin["elements"] = [s["elements"][k] for k in sib["perm"]]
+            twin["twin_of_previous"] = sib["order"] == "after"
+            expanded += [s, twin] if sib["order"] == "after" else [twin, s]
+        else:
+            expanded.append(s)
+    scenes = expanded
 
     def exercise(s, m, ens, grid, radii, si, exact):
         coords = np.array(s["coords"], dtype=np.float64)
@@ -642,6 +664,8 @@ def check_scenes(ctx, n_cases, corpus, big=0):
         ctx.count("scene-grid-points" + ("<=400" if grid.shape[0] <= 400 else "<=4096" if grid.shape[0] <= 4096 else ">4096"))
         if s.get("phase"):
             ctx.count(f"scene-second-query-after-edit:{s['then']['edit']}")
+        if "twin_of_previous" in s:
+            ctx.count("scene-same-formula-other-atom-order:" + ("evaluated-second" if s["twin_of_previous"] else "evaluated-first"))
         ctx.count(f"scene-conformers={n_conf}")
         if any(w == 0.0 for w in s["weights"]):
             ctx.count("scene-with-zero-weight-conformer")
@@ -843,7 +867,8 @@ def run(ctx):
                 "strided/transposed/reversed/column-strided/mixed-dtype arguments; non-trivial = a non-contiguous argument. "
                 "Grids: dyadic boxes (exact comparison) and general float boxes (tolerance; width/spacing within 1e-4 of an "
                 "integer skipped); non-trivial = more than one point. Scenes: 1..5, 11..30 or 31..60 atoms (beyond one KD-tree leaf of 10 points) x 1..4 conformers, rectangular or "
-                "random float32/float64 grids; a third of the scenes have a conformer of weight exactly 0 (explicit / underflowed) or 5e-324 placed "
+                "random float32/float64 grids; a third of the scenes are followed or preceded, in the same process, by an ensemble of the same formula "
+                "whose elements come in another atom order; a third of the scenes have a conformer of weight exactly 0 (explicit / underflowed) or 5e-324 placed "
                 "where no other conformer reaches, with grid points around it; half of the scenes query, edit the SAME objects in place (coords assignment / translate / scale) and "
                 "query again; additional large scenes: grids of 4097..20001 points, 100..260 atoms, 17..70 conformers (compared with the brute-force "
                 "definition and the binary32 driver); max_dist in {0.5..3.3}, eps in {0..1}; each scene exercises nearest (ensemble and "
@@ -862,7 +887,7 @@ def run(ctx):
     check_kernels(ctx, 250 if q else 8000, corpus)
     check_prebuilt(ctx, 80 if q else 2500)
     check_grids(ctx, 60 if q else 1500, corpus)
-    check_scenes(ctx, 24 if q else 800, corpus, big=4 if q else 40)
+    check_scenes(ctx, 24 if q else 600, corpus, big=4 if q else 30)
 
 
 def replay(ctx, path):
